@@ -6,6 +6,8 @@ K1p  the same critical section run by k<=2 (3) real threads under a controlled s
      INSIDE __enter__ / __exit__ (line and byte-code-operation granularity, bounded number of pre-emptions)
 K2a  ``_ttf_get_glyph_features`` / ``_FONT_CACHE``: symbolic glyph-id lists, history of <=2 (3) calls
 K2b  ``_get_round_keys`` / ``_ROUND_KEY_CACHE``: fully symbolic keys, the solver decides which keys coincide
+K2c  the built-in AES (ECB/CBC, all key sizes) used by k<=2 (3) threads at once under K1p's scheduler: every
+     thread gets the FIPS-197 result for its own key and block
 K2m  lru_cache'd router / content-type lookups and ``_get_type_registry`` under lookup histories
 K3   sequences of <=3 real extractions (failing ones, injected faults, abandoned generators included):
      per-document result == isolated baseline, third-party attributes / library module state /
@@ -504,7 +506,7 @@ class _Sched:
 
     def _tracers(self, t):
         import dis
-        want_op = self.gran == "opcode"
+        want_op, want_call = self.gran == "opcode", self.gran == "call"
         files, codes, opname = self.files, self._codes, dis.opname
 
         def local(frame, event, arg):
@@ -525,6 +527,11 @@ class _Sched:
 
         def glob(frame, event, arg):
             if frame.f_code.co_filename in files:
+                if want_call:
+                    # coarse granularity: a point before every call of (resumption of a generator in) the module
+                    if not (self.muted[t] or self.aborting):
+                        self.pause(t, (frame.f_code.co_name, frame.f_lineno, "call"))
+                    return None
                 if want_op:
                     frame.f_trace_opcodes = True
                 return local
@@ -812,15 +819,17 @@ def _k1p_parts(tier):
 K2A_FINDING = "C15-font-cache-keeps-first-callers-glyph-subset"
 
 
-def _mk_ttf(boxes, long_loca, upem, drop=()):
+def _mk_ttf(boxes, long_loca, upem, drop=(), pad=None):
     """minimal TrueType file (OpenType spec: table directory, head, maxp, loca, glyf) with one
-    non-empty glyph per entry of ``boxes`` = (xMin, yMin, xMax, yMax)"""
+    non-empty glyph per entry of ``boxes`` = (xMin, yMin, xMax, yMax); ``pad`` = extra (even) number of bytes
+    after each glyph's header, i.e. where the glyphs lie inside 'glyf' (table checksums are left 0, as embedded
+    subsets often have them: readers ignore them)"""
     n = len(boxes)
     glyf = b""
     offs = []
-    for (x0, y0, x1, y1) in boxes:
+    for i, (x0, y0, x1, y1) in enumerate(boxes):
         offs.append(len(glyf))
-        glyf += struct.pack(">hhhhh", 1, x0, y0, x1, y1) + b"\0\0"      # 12 bytes, even
+        glyf += struct.pack(">hhhhh", 1, x0, y0, x1, y1) + b"\0\0" + b"\0" * (pad[i] if pad else 0)   # even
     offs.append(len(glyf))
     loca = b"".join(struct.pack(">I", o) for o in offs) if long_loca else \
         b"".join(struct.pack(">H", o // 2) for o in offs)
@@ -846,9 +855,19 @@ def _mk_ttf(boxes, long_loca, upem, drop=()):
 def _fonts():
     b0 = [(0, 0, 500, 700), (10, -20, 610, 1480), (0, 0, 956, 1497), (-5, -5, 535, 1467)]
     b1 = [(0, 0, 100, 200), (0, 0, 971, 1472), (3, 4, 963, 1502), (1, 1, 2, 2)]
-    return [("short-loca", _mk_ttf(b0, False, 2048), b0, 2048),
-            ("long-loca", _mk_ttf(b1, True, 1000), b1, 1000),
-            ("no-maxp", _mk_ttf(b0, False, 2048, drop=(b"maxp",)), None, None)]
+    b2 = [(0, 0, 321, 654), (7, 7, 77, 777), (0, 0, 1200, 1300), (2, 3, 500, 900)]
+    return [("short-loca", _mk_ttf(b0, False, 2048, pad=[4, 0, 0, 0]), b0, 2048),
+            ("long-loca", _mk_ttf(b1, True, 1000, pad=[0, 8, 0, 0]), b1, 1000),
+            ("no-maxp", _mk_ttf(b0, False, 2048, drop=(b"maxp",)), None, None),
+            # SIBLINGS of the first two: other font programs with byte-for-byte the same table directory (same
+            # tables, offsets, lengths, zero checksums) that differ only inside one table
+            ("short-loca/other-glyf", _mk_ttf(b2, False, 2048, pad=[4, 0, 0, 0]), b2, 2048),
+            ("short-loca/other-head", _mk_ttf(b0, False, 1000, pad=[4, 0, 0, 0]), b0, 1000),
+            ("short-loca/other-loca", _mk_ttf(b0, False, 2048, pad=[0, 0, 4, 0]), b0, 2048),
+            ("long-loca/other-loca-glyf", _mk_ttf(b2, True, 1000, pad=[0, 0, 0, 8]), b2, 1000)]
+
+
+FONT_SIBLINGS = ((0, 3, 4, 5), (1, 6))
 
 
 def _ref_features(font_entry, gids, perturb=None):
@@ -937,8 +956,11 @@ def k2a_font_cache(ctx):
 
 def _k2a_parts(tier):
     base = [{"calls": 2, "max_len": 2, "font0": a, "font1": b} for a in range(3) for b in range(3)]
+    # histories over different font programs that share their table directory (both orders)
+    sib = [(a, b) for g in FONT_SIBLINGS for a in g for b in g if a != b]
     if tier == "quick":
-        return base
+        return base + [{"calls": 2, "max_len": 1, "font0": a, "font1": b} for a, b in sib]
+    base += [{"calls": 2, "max_len": 2, "font0": a, "font1": b} for a, b in sib]
     # lists of 3 ids for the pairs of well-formed fonts (one part per pair of list lengths), and histories of 3 calls
     long_ = [{"calls": 2, "max_len": 3, "font0": a, "font1": b, "n_gids0": x, "n_gids1": y}
              for (a, b) in ((0, 0), (0, 1), (1, 0)) for x in range(4) for y in range(4) if 3 in (x, y)]
@@ -1083,6 +1105,195 @@ def _k2b_parts(tier):
             [{"L": 5, "sizes": [16, 24, 32, 16, 32]}]
     return [{"L": 5}] + [{"L": 6, "n": 6, "rgs": r} for r in _RGS3] + [{"L": 7, "n": 7, "rgs": r} for r in _RGS3] + \
         [{"L": 6, "sizes": [16, 24, 32, 16, 32, 24]}, {"L": 6, "n": 6, "sizes": [32]}, {"L": 6, "n": 6, "sizes": [24]}]
+
+
+# ---------------------------------------------------------------------------------------
+# K2c the built-in AES under concurrent use (controlled scheduler, see K1p)
+# ---------------------------------------------------------------------------------------
+
+# FIPS-197 appendix C example vectors: key 00 01 02 ..., plaintext 00 11 22 ... ff
+_FIPS_PT = bytes.fromhex("00112233445566778899aabbccddeeff")
+_FIPS_CT = {16: bytes.fromhex("69c4e0d86a7b0430d8cdb78070b4c55a"),
+            24: bytes.fromhex("dda97ca4864cdfe06eaf70a0ec0d7191"),
+            32: bytes.fromhex("8ea2b7ca516745bfeafc49904b496089")}
+_IV = bytes.fromhex("0f1e2d3c4b5a69788796a5b4c3d2e1f0")
+AES_OPS = ("ecb_enc", "ecb_dec", "cbc_enc", "cbc_dec")
+K2C_FINDING = "C15-round-key-table-hit-races-with-eviction"
+
+
+def _xor(a, b):
+    return bytes(x ^ y for x, y in zip(a, b))
+
+
+def _aes_job(m, op, ksize):
+    """(callable on the real module, result FIPS-197 prescribes): one-block ECB / CBC operations built around the
+    standard's example vectors (CBC: C = E(P xor IV), P = D(C) xor IV)"""
+    key = bytes(range(ksize))
+    pt, ct = _FIPS_PT, _FIPS_CT[ksize]
+    if op == "ecb_enc":
+        return (lambda: m.aes_ecb_encrypt(key, pt)), ct
+    if op == "ecb_dec":
+        return (lambda: m.aes_ecb_decrypt(key, ct)), pt
+    if op == "cbc_enc":
+        return (lambda: m.aes_cbc_encrypt(key, _IV, _xor(pt, _IV))), ct
+    return (lambda: m.aes_cbc_decrypt(key, _IV, ct)), _xor(pt, _IV)
+
+
+def k2c_aes_concurrent(ctx):
+    """k threads each perform one operation of the built-in AES (the code pypdf's fallback provider is patched
+    with) at the same time, under the controlled scheduler of K1p: a thread may be pre-empted before every call of
+    a function of the module ("call") / before every line of it ("line"), at most ``bound`` times.  Oracle: what a
+    thread gets does not depend on what the others are doing - it is what FIPS-197 prescribes for its key and
+    block (== what the same call returns alone); nothing raises; nothing deadlocks.  ``warm``: the round-key table
+    was filled by earlier calls (the first thread's key being the oldest entry)."""
+    import threading
+    m = _aes()
+    P = _pristine()
+    gran, bound = ctx.params["gran"], ctx.params["bound"]
+    jobs = [tuple(j) for j in ctx.params["jobs"]]         # (operation, key size) per thread
+    k = len(jobs)
+    start = ctx.params.get("start")
+    slice_r, slice_m = ctx.params.get("slice", (0, 1))
+    warm = ctx.params.get("warm", 0)
+    lock_t, rlock_t = type(threading.Lock()), type(threading.RLock())
+    lengths = _RUN_LENGTHS.setdefault((S.REPO, "K2c", gran, bound, tuple(jobs), warm, ctx.perturb), {})
+    calls, want = zip(*[_aes_job(m, op, ks) for op, ks in jobs])
+    want = list(want)
+    if ctx.perturb == "expect_first_threads_result":
+        want = [want[0]] * k
+    with contextlib.ExitStack() as st:
+        sched = _Sched(k, gran, [m.__file__])
+        sync = {n: _SchedLock(sched, isinstance(v, rlock_t)) for n, v in vars(m).items()
+                if isinstance(v, (lock_t, rlock_t))}
+        if sync:
+            st.enter_context(ctx.stub(m, **sync))
+        got = [None] * k
+
+        def target(t):
+            got[t] = calls[t]()
+
+        runs, decisions = [], []
+        cur, used, cut = None, 0, False
+        hit = [False] * k
+        known = (not ctx.perturb) and K2C_FINDING in (ctx.params.get("known_active") or ())
+
+        def pick(n):
+            v = ctx.pick("d%d" % len(decisions), n)
+            decisions.append(v)
+            return v
+
+        def info():
+            return {"jobs": ["%s/%d" % j for j in jobs], "schedule": runs[-16:], "preemptions": used, "warm": warm,
+                    "at": ["T%d %s" % (t, _fmt_pos(sched.pos[t])) for t in range(k)]}
+
+        try:
+            if warm:
+                # history: the table is full, thread 0's key is its oldest entry
+                for key in [bytes(range(jobs[0][1]))] + [bytes([0xA0 + i]) * 16 for i in range(m._ROUND_KEY_CACHE_MAX - 1)]:
+                    m._get_round_keys(key)
+            alone = [_outcome(c) for c in calls] if ctx.perturb is None and not warm else None
+            sched.start(target)
+            while not all(sched.done):
+                enabled = [t for t in range(k) if sched.enabled(t)]
+                if not enabled:
+                    ctx.fail("deadlock-in-aes", **info())
+                # threads that have not started and do the same job are interchangeable
+                cand = [t for t in enabled if sched.started[t] or
+                        not any(not sched.started[u] and jobs[u] == jobs[t] for u in range(t))]
+                if cut:
+                    cand = [t for t in cand if t != cur]
+                    if not cand:
+                        ctx.assume(False)
+                    used += 1
+                elif cur in cand:
+                    cand.remove(cur)
+                    cand.insert(0, cur)
+                t = cand[pick(len(cand))]
+                if cur is None and start is not None and t != start:
+                    ctx.assume(False)           # another part
+                came_from = sched.pos[t]
+                if not sched.started[t]:
+                    hit[t] = bytes(range(jobs[t][1])) in m._ROUND_KEY_CACHE
+                may_cut = used < bound and any(not sched.done[u] for u in range(k) if u != t)
+                if not may_cut:
+                    n, j = sched.run(t), 0
+                elif ctx.concrete:
+                    j = pick(_ANY)
+                    n = sched.run(t, j)
+                else:
+                    key = tuple(decisions)
+                    total = lengths.get(key)
+                    if total is None:
+                        n = total = lengths[key] = sched.run(t)
+                        j = pick(total)
+                        if j != 0:
+                            raise RuntimeError("run-length table out of step with the exploration order")
+                    else:
+                        j = pick(total)
+                        n = sched.run(t, j)
+                if cur is None and j % slice_m != slice_r:
+                    ctx.assume(False)           # another part
+                cut = j != 0
+                if known and cut and hit[t] and sched.pos[t][0] == "_get_round_keys":
+                    # class of the known finding: a thread whose key was in the (full) table is pre-empted between
+                    # its lookup and its move_to_end
+                    ctx.note("schedule-in-class-of-known-finding:" + K2C_FINDING)
+                    ctx.assume(False)
+                if cut and (n != j or sched.done[t] or sched.blocked[t] is not None):
+                    raise RuntimeError("pre-emption point %d of the run not reached (%d points)" % (j, n))
+                runs.append("T%d x%d %s -> %s" % (t, n, _fmt_pos(came_from), _fmt_pos(sched.pos[t])))
+                cur = t
+                if sched.done[t] and ctx.perturb == "expect_operations_atomic":
+                    # twin: demands that no other operation is under way when one completes - refuted exactly by
+                    # the schedules that pre-empt inside an operation
+                    mid = [u for u in range(k) if u != t and sched.started[u] and not sched.done[u]]
+                    ctx.require(not mid, "twin-preempted-inside-operation", mid=mid, **info())
+            errs = {t: e for t, e in enumerate(sched.err) if e}
+            ctx.require(not errs, "aes-operation-raised-under-concurrency", errors=errs, **info())
+            for t in range(k):
+                ctx.require(got[t] == want[t], "aes-result-depends-on-concurrent-operation", thread=t,
+                            got=got[t].hex() if isinstance(got[t], bytes) else repr(got[t]), fips197=want[t].hex(),
+                            **info())
+            if alone is not None:
+                ctx.require(all(a == ("ok", w) for a, w in zip(alone, want)), "aes-result-alone-differs-from-fips197",
+                            alone=[repr(a)[:80] for a in alone])
+        finally:
+            try:
+                sched.close()
+            finally:
+                P.reset()
+
+
+def _k2c_parts(tier):
+    parts = []
+
+    def add(gran, bound, jobs, m=1, warm=0):
+        starts = [None] if len(set(jobs)) == 1 else [0, 1]
+        for s0 in starts:
+            for r in range(m):
+                p = {"gran": gran, "bound": bound, "jobs": [list(j) for j in jobs], "warm": warm}
+                if s0 is not None:
+                    p["start"] = s0
+                if m > 1:
+                    p["slice"] = (r, m)
+                parts.append(p)
+    pairs = [(("cbc_dec", 16), ("cbc_dec", 32)), (("ecb_enc", 16), ("ecb_dec", 16)), (("cbc_enc", 32), ("ecb_dec", 24)),
+             (("cbc_dec", 16), ("cbc_dec", 16))]
+    if tier == "quick":
+        for jobs in pairs:
+            add("call", 1, jobs)
+    else:
+        for a in AES_OPS:
+            for b in AES_OPS:
+                if a <= b:
+                    for ka, kb in ((16, 32), (16, 16), (24, 16)):
+                        add("call", 2, ((a, ka), (b, kb)), m=2)
+        for jobs in pairs:
+            add("line", 1, jobs, m=4)
+            add("call", 2, jobs, m=2, warm=1)
+        add("line", 1, pairs[0], m=4, warm=1)
+        add("call", 1, (("cbc_dec", 16), ("cbc_dec", 32), ("ecb_enc", 24)))
+    return parts
 
 
 # ---------------------------------------------------------------------------------------
@@ -1675,6 +1886,12 @@ def _t_k2b():
     return [m._get_round_keys, m._expand_key]
 
 
+def _t_k2c():
+    m = _aes()
+    return [m.aes_ecb_encrypt, m.aes_ecb_decrypt, m.aes_cbc_encrypt, m.aes_cbc_decrypt, m._aes_encrypt_block,
+            m._aes_decrypt_block, m._get_round_keys]
+
+
 def _t_k2m():
     from sharepoint2text.parsing.extractors import serialization
     return [getattr(f, "__wrapped__", f) for f in _lru_functions().values()] + [serialization._get_type_registry]
@@ -1756,6 +1973,26 @@ KERNELS = [
                         "with solver-decided key comparison; S-box as an uninterpreted function (C20/K1)"],
            outside=["request sequences longer than the bound"],
            timeout={"quick": 150, "thorough": 1100}, solver_timeout_ms=60000),
+    Kernel("K2c", "k threads inside the built-in AES (ECB/CBC encrypt/decrypt, 128/192/256-bit keys) at the same time "
+                  "under the controlled scheduler of K1p: every thread gets what FIPS-197 prescribes for its own key "
+                  "and block, whatever the others are doing; nothing raises",
+           k2c_aes_concurrent, targets=_t_k2c, parts=_k2c_parts, strength="structure", max_depth=6000,
+           bounds={"quick": {"threads": 2, "preemptions": "1 (4 job pairs), before every call of a function of the "
+                                                         "module"},
+                   "thorough": {"threads": "2 / 3", "preemptions": "2 (call granularity, all operation pairs) / 1 (line "
+                                                                 "granularity; 3 threads)"}},
+           perturb=[("expect_operations_atomic", {"gran": "call", "bound": 1, "warm": 0,
+                                                  "jobs": [["cbc_dec", 16], ["cbc_dec", 32]]}),
+                    ("expect_first_threads_result", {"gran": "call", "bound": 1, "warm": 0,
+                                                     "jobs": [["ecb_enc", 16], ["ecb_enc", 32]]})],
+           choices=["thread running next and the point of its run at which it is pre-empted (as K1p)",
+                    "operation and key size per thread (parts)"],
+           stubs=["sys.settrace in the scheduled threads (switching points only)",
+                  "module-level locks of _pypdf_aes_fallback (none today) -> scheduler-aware locks"],
+           assumptions=["inputs are the FIPS-197 appendix C vectors (one block per operation); the schedule, not the "
+                        "data, is the quantified dimension"],
+           outside=["more pre-emptions than the bound", "multi-block messages", "pypdf's own code around the provider"],
+           timeout={"quick": 150, "thorough": 1000}),
     Kernel("K2m", "lru_cache'd router / content-type lookups answer as the undecorated function after any lookup "
                   "history; _get_type_registry idempotent and == the result dataclasses",
            k2m_lookups, targets=_t_k2m, parts=_k2m_parts, strength="structure", core=False,
